@@ -28,3 +28,5 @@ what = f'fixed: property={prop} {h} ' + (' '.join(msg[1:]).strip() or msg[0][4:]
 with open('/verif/known_findings.jsonl', 'a') as f:
     f.write(json.dumps({'property': prop, 'status': 'fixed', 'commit': h, 'key': key, 'what': what}) + '\n')
 print('committed', h, msg[0])
+# the repaired bodies become the recorded anchors
+subprocess.run(['/verif/tools/mk_anchors.py'])
